@@ -13,9 +13,12 @@ func (s *stateMachine[V, H, A]) ProcessStart(round types.Round) []actions.Action
 		return nil
 	}
 	s.isHeightStarted = true
+	// The entry is a copy: the driver reads it only after this call returned, when the height
+	// field may already have moved on (the loop below can commit the height).
+	start := wal.Start(s.state.height)
 	return s.processLoop(
 		[]actions.Action[V, H, A]{
-			&actions.WriteWAL[V, H, A]{Entry: (*wal.Start)(&s.state.height)},
+			&actions.WriteWAL[V, H, A]{Entry: &start},
 			s.startRound(round),
 		},
 		nil,
